@@ -620,10 +620,18 @@ def shape_key(j, item):
     return hashlib.sha1(json.dumps([head, rc], separators=(",", ":")).encode()).hexdigest()
 
 
-def select_representatives(images):
-    """[(image, only)] keeping one item per distinct shape; images left with nothing are dropped."""
+def select_representatives(images, raw_ids=()):
+    """[(image, only)] keeping one item per distinct shape; images left with nothing are dropped.
+    Images of the programs in raw_ids (the standard library) are always analysed whole."""
     seen, out, total, kept = set(), [], 0, 0
-    for j in images:
+    for j in sorted(images, key=lambda j: 0 if j["id"] in raw_ids else 1):
+        if j["id"] in raw_ids:
+            for it in image_items(j):
+                total += 1
+                kept += 1
+                seen.add(shape_key(j, it))
+            out.append((j, None))
+            continue
         only = []
         for it in image_items(j):
             total += 1
@@ -711,7 +719,7 @@ def prints_of(res, kind):
 _STAT = re.compile(r'^<<"STAT", (\d+), (\d+), (\d+), (\d+), (\d+), (\d+)>>$', re.M)
 
 
-def vmstack_check(check, images, tag, procs=4, workers=4, representatives=False):
+def vmstack_check(check, images, tag, procs=4, workers=4, representatives=False, raw_ids=()):
     """TLC VMStack over bcdump images.  Returns (violations, stats)."""
     stats = {"items": 0, "steps": 0, "join_arrivals": 0, "joins_with_different_local_counts": 0,
              "tailcall_sites": 0, "images": len(images)}
@@ -719,7 +727,7 @@ def vmstack_check(check, images, tag, procs=4, workers=4, representatives=False)
     if not images:
         return viols, stats
     if representatives:
-        sel, total, kept = select_representatives(images)
+        sel, total, kept = select_representatives(images, raw_ids)
         stats["items_in_corpus"] = total
         stats["items_selected_as_distinct_shapes"] = kept
         records = [to_tlc_image(j, only) for j, only in sel]
@@ -727,6 +735,7 @@ def vmstack_check(check, images, tag, procs=4, workers=4, representatives=False)
         records = [to_tlc_image(j) for j in images]
     runs = tlc_parallel(check, "VMStack", "MC_VMStack.cfg", "VMSTACK_IN", records,
                         tag, procs=procs, workers=workers, label="VMStack(work-list fixpoint per function)")
+    analysed, nontrivial = set(), set()
     for res, part in runs:
         vs = prints_of(res, "VIOL")
         for m in _STAT.finditer(res.out):
@@ -735,6 +744,13 @@ def vmstack_check(check, images, tag, procs=4, workers=4, representatives=False)
             stats["join_arrivals"] += int(m.group(4))
             stats["joins_with_different_local_counts"] += int(m.group(5))
             stats["tailcall_sites"] += int(m.group(6))
+            # measured on what TLC analysed: distinct code bodies, and those with a join or a
+            # branch / call / tail call / spawn / select / send
+            code = part[int(m.group(1)) - 1]["fns"][int(m.group(2))]
+            h = fn_hash(code)
+            analysed.add(h)
+            if int(m.group(4)) > 0 or any(i[0] in NONTRIVIAL_OPS for i in code):
+                nontrivial.add(h)
         stats["items"] += len(vs)
         if bool(vs) != bool(res.violated):
             sys.stderr.write(res.out[-2000:])
@@ -742,6 +758,8 @@ def vmstack_check(check, images, tag, procs=4, workers=4, representatives=False)
         for v in vs:
             v["invariant"] = RULES.get(v["rule"], "?")
             viols.append(v)
+    stats["distinct_analysed"] = len(analysed)
+    stats["distinct_nontrivial_analysed"] = len(nontrivial)
     return viols, stats
 
 
@@ -840,7 +858,8 @@ def pipeline(check, programs, tag, group_size=25, trace_keep=3000, trace_max=200
     # 3. TLC: the static analysis
     t1 = time.time()
     sviol, stats = vmstack_check(check, images, tag, procs=tlc_procs, workers=tlc_workers,
-                                 representatives=representatives)
+                                 representatives=representatives,
+                                 raw_ids={p["id"] for p in programs if p.get("source") == "std"})
     m["vmstack_s"] = round(time.time() - t1, 1)
     m["static"] = stats
     violations = []
@@ -947,19 +966,11 @@ def select_c07(tier):
     fixed = corpus_std() + corpus_spec() + corpus_examples() + [dict(p) for p in PROBES]
     info = {"test_call_sites": sites, "test_call_sites_unread": unread, "test_sessions": len(tests),
             "test_other_literals": len(loose)}
-    if tier == "thorough":
-        gen = corpus_generated(1500, common.seed())
-        return fixed + tests + loose + gen, info
-    rng = random.Random(common.seed())
-    k_tests = int(os.environ.get("VMSTACK_QUICK_TESTS", "330"))
-    k_loose = int(os.environ.get("VMSTACK_QUICK_LITERALS", "60"))
-    sample = rng.sample(tests, min(k_tests, len(tests))) + rng.sample(loose, min(k_loose, len(loose)))
-    # the tail-call tests are small and central to both properties: always in
-    chosen = {p["id"] for p in sample}
-    sample += [p for p in tests if p["id"].startswith("test:tail_calls.rs") and p["id"] not in chosen]
-    gen = corpus_generated(150, common.seed())
-    info["quick_sample"] = {"tests": k_tests, "literals": k_loose, "of_tests": len(tests), "of_literals": len(loose)}
-    return fixed + sample + gen, info
+    # Both tiers take the WHOLE corpus.  thorough analyses every function of every image; quick
+    # analyses the standard library whole and, of the rest, one representative per distinct function
+    # shape (see shape_key) -- the test suite repeats the same library functions thousands of times.
+    gen = corpus_generated(1500 if tier == "thorough" else 250, common.seed())
+    return fixed + tests + loose + gen, info
 
 
 def run_c07(tier):
@@ -967,13 +978,14 @@ def run_c07(tier):
     check.cov["rule"] = RULE_C07
     programs, info = select_c07(tier)
     big = tier == "thorough"
-    r = pipeline(check, programs, "c07", trace_keep=20000 if big else 2500,
-                 trace_max=200000 if big else 60000, tlc_procs=4, tlc_workers=4)
+    r = pipeline(check, programs, "c07", trace_keep=20000 if big else 2000,
+                 trace_max=200000 if big else 50000, tlc_procs=4, tlc_workers=4, representatives=not big)
     m = r["m"]
     check.cov["corpus"] = info
     check.cov["counts"] = m
     check.cov["evaluations"] = m["static"]["items"]
-    check.cov["distinct_nontrivial"] = m["distinct_nontrivial"]
+    check.cov["functions_in_corpus"] = m["static"].get("items_in_corpus", m["static"]["items"])
+    check.cov["distinct_nontrivial"] = m["static"]["distinct_nontrivial_analysed"]
     check.cov["tailcall_sites_checked"] = m["static"]["tailcall_sites"]
     check.cov["traces_validated_against_impl"] = m["traces"]["validated"]
     check.cov["model_drift"] = m["traces"]["drift"]
@@ -994,10 +1006,12 @@ def run_c07(tier):
             print("  NOTE: known finding %s was NOT reproduced by %s (fixed? then mark it fixed in known_findings.json)"
                   % (p["known"], p["id"]))
     check.cov["known_finding_probes"] = [p["id"] for p in PROBES]
-    print("C07 %s: %d programs (%s), %d images, %d functions analysed (%d distinct, %d nontrivial), "
+    print("C07 %s: %d programs (%s), %d images holding %d functions; %d analysed by TLC (%d distinct code "
+          "bodies, %d of them nontrivial), "
           "%d TailCall sites, %d real traces validated (%d observations), drift=%d, violations=%d"
           % (tier, m["programs"], ", ".join("%s %d/%d" % (k, v["compiled"], v["programs"]) for k, v in sorted(m["per_source"].items())),
-             m["static"]["images"], m["static"]["items"], m["distinct_functions"], m["distinct_nontrivial"],
+             m["static"]["images"], m["static"].get("items_in_corpus", m["static"]["items"]), m["static"]["items"],
+             m["static"]["distinct_analysed"], m["static"]["distinct_nontrivial_analysed"],
              m["static"]["tailcall_sites"], m["traces"]["validated"], m["traces"]["observations"],
              m["traces"]["drift"], reported))
     return check.finish()
@@ -1097,7 +1111,7 @@ def run_c16(tier):
     check.cov["counts"] = {k: v for k, v in m.items() if k != "peaks"}
     check.cov["peaks"] = m["peaks"]
     check.cov["evaluations"] = st["items"] + (m.get("extra_static", {}).get("static", {}).get("items", 0))
-    check.cov["distinct_nontrivial"] = m["static"]["distinct_nontrivial"]
+    check.cov["distinct_nontrivial"] = st["distinct_nontrivial_analysed"]
     check.cov["tailcall_sites_checked"] = st["tailcall_sites"] + (m.get("extra_static", {}).get("static", {}).get("tailcall_sites", 0))
     check.cov["traces_validated_against_impl"] = m["traces_validated"]
     check.cov["model_drift"] = len(drifts)
